@@ -130,7 +130,7 @@ def _lib_conformance(tier, seed):
          "kind": "bounded-conformance", "backend": "bounded:real-library",
          "obligations": 0, "bounded": True, "time": time.time() - t0,
          "detail": out.strip()[-400:],
-         "note": "31 library facts of pyvc/nplib.py on random small inputs"}
+         "note": "34 library facts of pyvc/nplib.py on random small inputs"}
     if rc == 0:
         e["status"] = "discharged"
     else:
